@@ -50,7 +50,7 @@ func (s scope) withFn(f fnInfo) scope {
 	return scope{s.vars, append(append([]fnInfo{}, s.fns...), f)}
 }
 
-var litPool = []types.MalType{0, 1, 2, 3, -1, 7, nil, true, false, "s", "", Kw("k"), Kw("a")}
+var litPool = []types.MalType{0, 1, 2, 3, -1, 7, nil, true, false, "s", "", Kw("k"), Kw("a"), "a\tb", "cr\rlf", "q\"\\n"}
 
 func (g *PG) Lit() types.MalType { return litPool[g.R.Intn(len(litPool))] }
 
@@ -126,7 +126,37 @@ func (g *PG) Expr(depth int, sc scope) types.MalType {
 		}
 		return g.Lit()
 	}
-	switch g.R.Intn(24) {
+	switch g.R.Intn(26) {
+	case 24: // every iteration of a self tail call has a scope of its own: closures made in earlier iterations keep their n; a def made in one iteration is gone in the next
+		f := g.fresh("it")
+		if g.R.Bool() {
+			g.tag("tail-loop-closures-keep-their-iteration")
+			return Call("do", Call("def", S(f), Call("fn", V(S("n"), S("acc")),
+				Call("if", Call("=", S("n"), 0), Call("map", Call("fn", V(S("g")), L(S("g"))), S("acc")),
+					Call(f, Call("-", S("n"), 1), Call("cons", Call("fn", V(), S("n")), S("acc")))))),
+				Call(f, 2+g.R.Intn(3), Call("list")))
+		}
+		g.tag("tail-loop-def-does-not-survive-the-iteration")
+		x := g.fresh("lx")
+		return Call("do", Call("def", S(f), Call("fn", V(S("n")),
+			Call("if", Call("=", S("n"), 0), Call("try", S(x), Call("catch", S("e"), Kw("unbound"))),
+				Call("do", Call("if", Call("=", S("n"), 2), Call("def", S(x), 100)), Call(f, Call("-", S("n"), 1)))))),
+			Call(f, 3))
+	case 25: // a scope that is still EMPTY when a nested scope is opened is the nested scope's parent all the same: bindings added to it later are seen
+		k, gname := g.fresh("lk"), g.fresh("lg")
+		switch g.R.Intn(3) {
+		case 0:
+			g.tag("binding-added-to-empty-parent-scope-after-closure:def")
+			return Call("do", Call("def", S(k), Kw("outer")),
+				L(Call("fn", V(), Call("def", S(gname), Call("let", V(S("z"), 1), Call("fn", V(), S(k)))), Call("def", S(k), Kw("inner")), Call(gname))))
+		case 1:
+			g.tag("binding-added-to-empty-parent-scope-after-closure:sequential-let")
+			return Call("do", Call("def", S(k), Kw("outer")),
+				Call("let", V(S(gname), Call("let", V(S("z"), 1), Call("fn", V(), S(k))), S(k), Kw("inner")), Call(gname)))
+		default:
+			g.tag("binding-added-to-empty-parent-scope-after-closure:unbound-outside")
+			return L(Call("fn", V(), Call("def", S(gname), L(Call("fn", V(), Call("fn", V(), S(k))))), Call("def", S(k), 4), Call(gname)))
+		}
 	case 23: // = on quoted data that holds symbols and nested collections: the same data written twice is equal wherever it was written
 		g.tag("equal-on-quoted-data")
 		d := []types.MalType{V(S("a"), S("b")), V(S("k"), L(1, 2), V(3)), L(S("a"), V(S("b"))), V(V(S("x")))}[g.R.Intn(4)]
